@@ -1,13 +1,17 @@
 """C02 — basic real arithmetic is correctly rounded in every rounding mode."""
-from props import _core
+from props import _core, _api
 
 LEVEL = "proof"
 LEAN_MODULES = ["Props.C02"]
 OPS = ["normalize", "normalize1", "from_man_exp", "from_int", "pos", "neg", "abs", "add", "sub", "mul", "gmul", "div",
        "mul_int", "gmul_int", "rdiv_int", "from_rational", "sqrt", "sum"]
 ASSUMPTIONS = ["bitcount/trailing/isqrt are modelled by their mathematical meaning; the float-seeded Python helpers are tied by "
-               "the bit-exact correspondence run (ops bitcount, trailing, isqrt) only"]
+               "the bit-exact correspondence run (ops bitcount, trailing, isqrt) only",
+               "the public API (operators, f* functions, constructors, fsum/fdot) is tied to the proved model by a seeded "
+               "bit-exact comparison through the driver and an exact rational oracle, not by a theorem about the glue code",
+               "dps= keywords are mapped to bits with libmp.dps_to_prec (the library's documented mapping)"]
 
 
 def run(ctx):
-    return _core.run_core(ctx, OPS + ["bitcount", "trailing", "isqrt"], 150000, 4000000, monitors=("spec", "canonical", "bits"))
+    res = _core.run_core(ctx, OPS + ["bitcount", "trailing", "isqrt"], 150000, 4000000, monitors=("spec", "canonical", "bits"))
+    return _api.add_arith(ctx, res)
